@@ -28,13 +28,16 @@ MAIN_LINES = [
     ".macro mac(arg) { lda #arg }", "mac(3)", ".if k { nop } else { brk }", ".loop 2 { inx }", "{ local: nop\n  jmp local }",
     "/// documented label\ndoc: rts", "jsr doc", '.text "hi"', '.text "hé€"', "nop // café € \U0001F600 x",
     "/* ééé */ lda start", ".assert k == 5", '.test "t1" { brk }', "bne start", "lda bsym", "jmp bscope.binner",
-    "lda csym", ".align 4", "rts",
+    "lda csym", ".align 4", "rts", '.segment "default" { seg1: nop }', '.segment "default" { .segment "default" { seg2: nop } }',
+    '.segment "default" {\n  segl: nop\n  .segment "default" {\n    jmp segl\n  }\n}',
 ]
 IMPORTS = ['.import * from "b.asm"', '.import csym from "c.asm"', '.import * from "c.asm"', '.import bsym from "b.asm"',
            '.import bsym as alias from "b.asm"', '.import * from "missing.asm"']
 B_LINES = ["bsym: nop", "bscope: { binner: rts }", ".const bk = 7", "lda #bk", "jmp bsym", "/// doc for b\nbdoc: nop",
-           '.import * from "c.asm"', "nop // €€", '.test "tb" { brk }', "lda bscope.binner"]
-C_LINES = ["csym: nop", "cscope: { cinner: rts }", ".const ck = 9", "ldy #ck", "jmp csym", "nop /* \U0001F600 */"]
+           '.import * from "c.asm"', "nop // €€", '.test "tb" { brk }', "lda bscope.binner", '.import * from "main.asm"',
+           '.segment "default" { bseg: nop }']
+C_LINES = ["csym: nop", "cscope: { cinner: rts }", ".const ck = 9", "ldy #ck", "jmp csym", "nop /* \U0001F600 */",
+           '.import * from "b.asm"', '.import * from "c.asm"']      # cyclic with b.asm's import of c.asm / a self-import
 ERROR_LINES = ["lda", "lda undefined_name", ")", "foo bar", ".const", "jmp (", "lda #", '.import * from "nowhere.asm"', "}", "{",
                "start: nop", "K"]
 POOLS = {"main.asm": MAIN_LINES, "b.asm": B_LINES, "c.asm": C_LINES}
@@ -65,7 +68,7 @@ def split_lines(text):
 
 IDENT = re.compile(r"[A-Za-z_][A-Za-z0-9_]*")
 # names the line pools define (labels, constants, macros, import aliases): positions where rename / definition have answers
-SYMBOLS = {"start", "data", "inner", "k", "v", "mac", "arg", "local", "doc", "bsym", "bscope", "binner", "bk", "bdoc", "csym",
+SYMBOLS = {"seg1", "seg2", "segl", "bseg", "start", "data", "inner", "k", "v", "mac", "arg", "local", "doc", "bsym", "bscope", "binner", "bk", "bdoc", "csym",
            "cscope", "cinner", "ck", "alias"}
 
 
@@ -150,7 +153,8 @@ def mutate_typing(rng, text, steps):
 
 def gen_request(rng, buffers, disk, method=None, file=None, cls=None):
     if method is None:
-        method = rng.choice(ALL_METHODS)
+        # the two symbol listings walk every file of the project: asked for more often
+        method = rng.choice(ALL_METHODS + ["workspace/symbol", "workspace/symbol", "textDocument/documentSymbol"])
     known = sorted(set(buffers) | set(disk))
     if file is None:
         r = rng.random()
@@ -171,6 +175,8 @@ def gen_request(rng, buffers, disk, method=None, file=None, cls=None):
             ev["cls"], ev["line"], ev["ch"] = gen_position(rng, text, cls)
         if method == "textDocument/rename":
             ev["new"] = rng.choice(["renamed", "x9", "start", "q"])
+    if method == "workspace/symbol" and rng.random() < 0.4:
+        ev["query"] = rng.choice(["b", "c", "s", "bs", "cscope", "zz"])
     return ev
 
 
@@ -224,7 +230,21 @@ def gen_history(rng, max_events=40):
                     if m in ("textDocument/completion", "textDocument/rename") and rng.random() < 0.8:
                         e2["line"], e2["ch"] = ev["line"], ev["ch"]
                     events.append(e2)
-        elif r < 0.49:
+        elif r < 0.55:
+            # a multi-file project whose imported files define labels on late lines (files of different lengths): every
+            # symbol the listings return must lie inside the document its uri names
+            for f in ("b.asm", "c.asm"):
+                pad = "".join(rng.choice(["\n", "// pad\n", "nop\n"]) for _ in range(rng.randrange(0, 9)))
+                t = pad + gen_text(rng, f, broken=False)
+                events.append({"ev": "open" if f not in buffers else "change", "file": f, "text": t})
+                buffers[f] = t
+            t = "\n".join(rng.sample(['.import * from "b.asm"', '.import * from "c.asm"', "start: nop", "lda bsym", "jmp csym"], 4)) + "\n"
+            events.append({"ev": "open" if "main.asm" not in buffers else "change", "file": "main.asm", "text": t})
+            buffers["main.asm"] = t
+            events.append(gen_request(rng, buffers, disk, method="workspace/symbol", file="main.asm"))
+            for f in rng.sample(["main.asm", "b.asm", "c.asm"], 2):
+                events.append(gen_request(rng, buffers, disk, method="textDocument/documentSymbol", file=f))
+        elif r < 0.57:
             # open a file that is not part of the project
             f = rng.choice(["other.asm", "other.asm", "untitled:Untitled-1"])
             t = gen_text(rng, f)
